@@ -31,6 +31,14 @@ the reactor thread; fileno() answers -1 afterwards or keeps answering the stale 
 Every reactor is built to survive that (select probes its descriptors after EBADF / ValueError and drops the bad one,
 poll gets POLLNVAL, epoll and the selector lose the fd silently); the calls issued afterwards are judged as before.
 
+(5) More than one reactor in the process: in two runs of ten a second real reactor (any of the four kinds) runs its own main loop on a
+thread of its own, started before or after the first one - so whatever the reactors keep in module-level state
+(twisted.python.threadable's registered "I/O thread", base.py's shared logging handler ...) belongs to the one that touched it last.  It
+is fed by producer threads of its own; half of the calls it runs, and its short timed calls, hand work to the first reactor with
+callFromThread - a reactor's thread is a thread like any other to the reactor it calls - and a share of the first reactor's calls hand
+work back.  Calls to either reactor are judged by the same clauses (once, on the thread of the reactor they were given to, in the order
+the issuing thread issued them, promptly); a restart of the first reactor (family 2) re-registers it while the second keeps running.
+
 Promptness is stated without timing: while an issued call is un-run, the
 simulator must never have to advance simulated time (i.e. the reactor must not
 be asleep in its poller with nothing ready and nobody else runnable); with an
@@ -40,6 +48,7 @@ from zope.interface import implementer
 
 from twisted.internet import defer, protocol
 from twisted.internet.interfaces import IReadDescriptor
+from twisted.python import threadable
 
 from detsim import kernel as K, reactors as R, threads as T
 
@@ -57,16 +66,23 @@ RULE = ("run = one tape-chosen reactor running its real main loop, 1..6 producer
         "in 4 runs of 10 the reactor is crash()ed once or twice - from a thread call, a callWhenRunning hook, a timed call or the I/O callback of an inbound connection, with or without "
         "a short unrelated timer armed - and run() again on the same thread, 1..2 more producers of 1..6 calls starting once that later run has started while the earlier ones carry on; "
         "in 3 runs of 5 the final stop() is asynchronous: 1..2 'before shutdown' triggers return a Deferred, each completed by the last of 1..5 callFromThread calls of the trigger's own thread, issued while the stopped-but-running reactor idles; "
+        "in 2 runs of 10 a companion reactor (tape-chosen kind) runs on its own thread, started before or after the first, fed by 1..2 producers of 1..6 calls; half of the calls it runs and its 0..2 short timed calls "
+        "hand a call to the first reactor from the companion's thread, 15% of the first reactor's calls hand one back; both reactors' calls are judged alike; "
         "in half of the runs 1..2 unrelated application readers have their fd closed behind the reactor's back (fileno() -1 or stale; from a thread or from the reactor thread) while producers are issuing; interleaving chosen at poller boundaries and at lines of the reactor source with probability p in {0, .05, .2} under a uniform scheduler, or under a PCT (priority) scheduler with few long-lasting pre-emptions; "
         "non-trivial = >= 2 producers and the reactor actually blocked in its poller at least once while producers were still running, or a line-level pre-emption fired")
 ASSUMPTIONS = ["the reactor's clock is strictly increasing between two readings (monotonic clock with sub-call resolution)", "CPython list.append / slice deletion are atomic between trace 'line' events (the GIL guarantee the code relies on)",
-               "quantifier's 10^4-call figure is not reached: <= 72 calls per run, + <= 24 in runs with restarts (depth is bounded by baton hand-over cost, not soundness)",
+               "quantifier's 10^4-call figure is not reached: <= 72 calls per run, + <= 24 in runs with restarts, + <= 26 in runs with a companion reactor (depth is bounded by baton hand-over cost, not soundness)",
                "restart family: a call issued by a still-running producer between crash() and the next run() is expected to run (once, in order) in that next run - the unchanged reactors queue it; "
                "nothing is demanded of its latency until the reactor sleeps in its poller again",
                "asynchronous shutdown: only calls issued before the call that completes the last outstanding 'before shutdown' Deferred are judged (all of them are: each trigger thread's completing call is its last); "
                "nothing is demanded of calls issued once the 'during shutdown' phase has begun",
                "an fd closed by another thread while the reactor sleeps in its poller makes the fake poller return (a real kernel may sleep on); either way the bad descriptor is reported at the poller's next entry",
                "nothing is demanded about the dead descriptor itself (whether / when it gets connectionLost is not part of C13)",
+               "companion reactor: it is stopped (callFromThread(stop)) only after the first reactor has finished; its short timers are waited for before the first reactor is stopped, "
+               "so no call is ever handed to a reactor that is no longer running; crash/restart, asynchronous shutdown and dying descriptors are applied to the first reactor only",
+               "a call handed to a reactor before its first run() (the other reactor started earlier) is expected to run once it runs, like the calls producers issue before the first reactor's run()",
+               "per-thread order is judged against the order in which the issuing thread made its callFromThread calls (for calls re-issued by running calls: the order in which those ran)",
+               "twisted.python.threadable.ioThread is reset to None at the start of a run (the value a fresh process has) and restored afterwards",
                "short timers are 0..5e-6 s (0..50 clock readings): the poll reactor truncates timeouts to whole milliseconds and busy-polls the remainder one clock reading at a time"]
 RUN_WALL_LIMIT_S = 60
 # short timer delays, in units of the simulated clock's resolution (1e-7 s per reading): the poll reactor truncates its timeout to whole
@@ -77,6 +93,14 @@ CRASH_FROM = ("thread", "hook", "timer", "io")   # where reactor.crash() is call
 # closed, fileno() keeps giving the number it cached (objects wrapping an OS-level fd) - and from where: another thread, or a call in the reactor thread
 BAD_FD = ("closed", "stale")
 BAD_FD_FROM = ("thread", "reactor")
+# a second reactor running in the same process on a thread of its own (module-level state of twisted.python.threadable, twisted.internet.base ...
+# is shared by both) is drawn per run: absent (8 in 10) / started after the first one / started before it
+# share of the runs whose clock is coarse: `grain` consecutive readings give the same value (Windows' time.time() ticks every 1..16 ms).
+# DISABLED (deliberately 0.0): on such a clock the unchanged asyncio reactor runs the calls of one thread out of order (callFromThread =
+# callLater(0); equal DelayedCall.time values have no tie-break on the timed-call heap) - reported, examined and put aside as an OBSERVATION
+# outside the statement (DESIGN 12.7; not repaired), see MUTANTS; the other clauses are exercised on a clock that never ties
+COARSE_CLOCK_P = 0.0
+COARSE_GRAINS = (4, 64)
 
 
 @implementer(IReadDescriptor)
@@ -120,29 +144,37 @@ def run(sim):
     nasync = sim.draw_weighted([(0, 2), (1, 2), (2, 1)], "async_shutdown_triggers")
     # unrelated application descriptors whose fd dies behind the reactor's back while producers are issuing
     bad_fds = [(sim.draw_choice(BAD_FD, "bad_fd"), sim.draw_choice(BAD_FD_FROM, "bad_fd_from")) for _ in range(sim.draw_weighted([(0, 3), (1, 2), (2, 1)], "bad_fds"))]
+    companion = sim.draw_weighted([(None, 8), ("after", 1), ("before", 1)], "companion_reactor")
+    kind_b = sim.draw_choice(list(R.KINDS), "companion_kind") if companion else None
+    grain = sim.draw_choice(COARSE_GRAINS, "clock_grain") if COARSE_CLOCK_P and sim.draw_bool(COARSE_CLOCK_P, "coarse_clock") else 1
     sim.config = {"reactor": kind, "producers": nprod, "preempt_p": preempt, "far_timer": with_timer, "policy": policy, "raising_calls": raising,
-                  "keyword_calls_p": kw_p, "restarts": plan, "near_timer_p": near_p, "async_shutdown_triggers": nasync, "bad_fds": ["%s-from-%s" % b for b in bad_fds]}
+                  "keyword_calls_p": kw_p, "restarts": plan, "near_timer_p": near_p, "async_shutdown_triggers": nasync, "bad_fds": ["%s-from-%s" % b for b in bad_fds],
+                  "companion": [companion, kind_b], "clock_grain": grain}
     now = [0.0]
     kern = K.Kernel(sim)
     kern.permute_ready = False
     files = ("internet/base.py", "internet/posixbase.py", "internet/_signals.py", "internet/asyncioreactor.py", "internet/selectreactor.py",
              "internet/pollreactor.py", "internet/epollreactor.py")
     sched = T.Scheduler(sim, trace_files=files if preempt else (), preempt_p=preempt, policy=policy)
-    issued = []          # (producer, k) in issue order
-    ran = []             # (producer, k) in run order
+    issued = []          # (reactor, producer, k) in issue order; reactor 0 is the one under the full workload, 1 its companion
+    ran = []             # (reactor, producer, k) in run order
     ran_thread = []
-    st = {"asleep": None, "producers_done": False, "blocked_while_producing": 0, "reactor_thread": None, "stopping": False,
-          "started": 0, "crashes": 0, "restart": False}
+    kinds = [kind, kind_b]
+    st = {"asleep": {}, "producers_done": False, "blocked_while_producing": 0, "reactor_thread": [None, None], "stopping": False,
+          "started": 0, "crashes": 0, "restart": False, "b_started": 0, "reads": 0, "hand_overs_due": 0}
     shut = {"begun": [False] * nasync, "d": [None] * nasync}
 
     def idle(timeout, scan):
         # called on the reactor thread when its poller found nothing ready
         deadline = None if timeout is None else now[0] + timeout
-        st["asleep"] = (deadline,)
-        if not st["producers_done"]:
+        me = sched.me()
+        st["asleep"][me.serial] = deadline
+        if me is not st["reactor_thread"][0]:
+            sim.probe("companion_blocked_in_poller")
+        elif not st["producers_done"]:
             st["blocked_while_producing"] += 1
             sim.probe("reactor_blocked_in_poller")
-        if st["stopping"] and any(shut["begun"]) and not all(d is not None and d.called for d in shut["d"]):
+        if me is st["reactor_thread"][0] and st["stopping"] and any(shut["begun"]) and not all(d is not None and d.called for d in shut["d"]):
             sim.probe("reactor_blocked_during_async_shutdown")
 
         def ready():
@@ -153,25 +185,36 @@ def run(sim):
                 return True
 
         sched.block_until(lambda: ready() or (deadline is not None and now[0] >= deadline), "poll")
-        st["asleep"] = None
+        del st["asleep"][me.serial]
 
     kern.idle = idle
+
+    def pending_on():
+        """Kinds of the reactors that have issued calls not run yet."""
+        left = list(issued)
+        for x in ran:
+            if x in left:
+                left.remove(x)
+        return sorted(set(kinds[x[0]] for x in left))
+
 
     def advance_clock():
         """Scheduler idle hook: nobody is runnable.  If the reactor sleeps with a finite timeout the only way on is to
         advance simulated time — which must never be necessary while an issued call has not run."""
-        a = st["asleep"]
-        if a is None or a[0] is None:
+        finite = [d for d in st["asleep"].values() if d is not None]
+        if not finite:
             return False
         pending = len(issued) - len(ran)
-        sim.check("prompt-no-sleep-while-call-pending", pending == 0, kind,
-                  lambda: "reactor asleep in its poller (finite timeout) with %d issued call(s) not run and no other runnable thread: lost wake-up" % pending)
-        now[0] = a[0]
+        sim.check("prompt-no-sleep-while-call-pending", pending == 0, "+".join(pending_on()) if pending else kind,
+                  lambda: "reactor asleep in its poller with %d issued call(s) not run and no other runnable thread (only the passing of time would wake anybody): lost wake-up" % pending)
+        now[0] = max(now[0], min(finite))
         sim.probe("clock_advanced_while_idle")
         return True
 
     sched.idle_hook = advance_clock
-    r = None
+    r = rb = None
+    io_thread = threadable.ioThread
+    threadable.ioThread = None     # what a fresh process has; a worker process would carry the (recyclable) ident of an earlier run's thread
     with R.installed(kern):
         try:
             def clock_read():
@@ -179,10 +222,21 @@ def run(sim):
                 # CLOCK_MONOTONIC on Linux): every reading is strictly later than the previous one.  With a frozen
                 # clock the asyncio reactor's callFromThread (implemented as callLater(0)) ties on the timed-call heap
                 # and runs same-thread calls out of order - an artefact of a frozen clock, not claimed as a defect.
-                now[0] += 1e-7
+                # (COARSE_CLOCK_P, disabled, makes `grain` consecutive readings equal.)
+                st["reads"] += 1
+                if st["reads"] % grain == 0:
+                    now[0] += 1e-7 * grain
+                elif grain > 1:
+                    sim.fault("clock_reading_tied")
                 return now[0]
 
             r = R.make_reactor(kind, kern, clock_read, fake_select_module=True)
+            reactors = [r]
+            if companion:
+                # a second reactor of the same process: it runs on a thread of its own, is fed by producer threads, and the calls it runs
+                # hand work to the first one with callFromThread (and the other way round) - exactly what callFromThread is for
+                rb = R.make_reactor(kind_b, kern, clock_read, fake_select_module=True)
+                reactors.append(rb)
 
             def do_crash(how):
                 # always runs on the reactor thread, inside run(): crash() + run() is the supported way to restart a reactor
@@ -224,33 +278,40 @@ def run(sim):
             for i in range(nasync):
                 r.addSystemEventTrigger("before", "shutdown", before_shutdown, i)
 
-            def issue(name, k, again, boom, fire=None):
-                """One callFromThread call; callFromThread(f, *args, **kwargs) accepts keyword arguments as well."""
+            def issue(name, k, again, boom, fire=None, t=0):
+                """One callFromThread call to reactor number t; callFromThread(f, *args, **kwargs) accepts keyword arguments as well."""
+                r = reactors[t]
                 style = sim.draw_weighted([("positional", 2), ("keyword", 2), ("all-keyword", 1)], "call_style") if kw_p and sim.draw_bool(kw_p, "keyword_call") else "positional"
-                issued.append((name, k))
+                issued.append((t, name, k))
+                if t:
+                    sim.probe("call_issued_to_companion")
                 if st["started"] > 1:
                     sim.probe("call_issued_in_a_later_run")
                 if st["stopping"]:
                     sim.probe("call_issued_during_async_shutdown")
                 if style == "positional":
-                    r.callFromThread(record, name, k, again, boom, fire)
+                    r.callFromThread(record, name, k, again, boom, fire, t)
                 elif style == "keyword":
                     sim.probe("call_with_keyword_arguments")
-                    r.callFromThread(record, name, k, boom=boom, fire=fire, again=again)
+                    r.callFromThread(record, name, k, boom=boom, t=t, fire=fire, again=again)
                 else:
                     sim.probe("call_with_keyword_arguments")
-                    r.callFromThread(record, again=again, k=k, fire=fire, p=name, boom=boom)
+                    r.callFromThread(record, again=again, k=k, fire=fire, p=name, t=t, boom=boom)
 
-            def record(p, k, again=False, boom=False, fire=None):
-                ran.append((p, k))
-                ran_thread.append(sched.me())
+            def record(p, k, again=False, boom=False, fire=None, t=0):
+                ran.append((t, p, k))
+                ran_thread.append((t, sched.me()))
                 if fire is not None:
                     # the clean-up thread's last call: its "before shutdown" trigger is complete
                     sim.event("shutdown-complete", fire)
                     shut["d"][fire].callback(None)
-                if again:
+                if again == "other":
+                    # a call running in one reactor's thread hands work to the other reactor
+                    sim.fault("call_handed_to_the_other_reactor")
+                    issue("x" + p, k, False, False, None, 1 - t)
+                elif again:
                     # a call issued from the reactor thread itself
-                    issue("r" + p, k, False, False)
+                    issue("r" + p, k, False, False, None, t)
                 if boom:
                     # a call may fail; the reactor logs the failure and every other call still runs exactly once
                     sim.fault("call_raised")
@@ -262,8 +323,27 @@ def run(sim):
             def near_timer_fired():
                 sim.probe("near_timer_fired")
 
+            def hand_over(i):
+                # a timed call of the companion reactor hands work to the first one - which is idle more often than not by then
+                sim.probe("companion_timer_hands_over")
+                st["hand_overs_due"] -= 1
+                sim.event("issue", "t%d" % i, 0)
+                issue("t%d" % i, 0, False, False)
+
+            def companion_main():
+                st["reactor_thread"][1] = sched.me()
+                if companion == "after":
+                    sched.block_until(lambda: st["started"] > 0, "run-started")
+                rb.callWhenRunning(lambda: st.__setitem__("b_started", st["b_started"] + 1))
+                for i in range(sim.draw_int(0, 2, "companion_timers")):
+                    st["hand_overs_due"] += 1
+                    rb.callLater(sim.draw_choice(DELAYS, "hand_over_delay"), hand_over, i)
+                rb.run(installSignalHandlers=False)
+
             def reactor_main():
-                st["reactor_thread"] = sched.me()
+                st["reactor_thread"][0] = sched.me()
+                if companion == "before":
+                    sched.block_until(lambda: st["b_started"] > 0, "companion-started")
                 run_no = 0
                 while True:
                     # what an application does between two run()s: startup hooks, timers
@@ -282,17 +362,21 @@ def run(sim):
                     run_no += 1
                     sim.probe("reactor_run_again_after_crash")
 
-            def producer(p, n, group):
+            def producer(p, n, group, t=0):
                 if group:
                     # producers of a later group start once that run of the reactor has started
                     sched.block_until(lambda: st["started"] > group, "run-started")
+                if t:
+                    sched.block_until(lambda: st["b_started"] > 0, "companion-started")
                 for k in range(n):
                     for _ in range(sim.draw_int(0, 2, "pause")):
                         sched.point("producer-pause")
                     again = sim.draw_bool(0.15, "again")
+                    if companion and sim.draw_bool(0.5 if t else 0.15, "across"):
+                        again = "other"
                     boom = raising and sim.draw_bool(0.2, "raises")
                     sim.event("issue", p, k)
-                    issue("p%d" % p, k, again, boom)
+                    issue("p%d" % p, k, again, boom, None, t)
 
             def crasher(g, how):
                 # ends run number g of the reactor from a thread call, or from the I/O callback of an inbound connection
@@ -337,6 +421,11 @@ def run(sim):
 
             rt = sched.spawn("reactor", reactor_main)
             prods = [sched.spawn("prod%d" % p, producer, p, sim.draw_int(1, 12, "ncalls"), 0) for p in range(nprod)]
+            if companion:
+                rtb = sched.spawn("companion", companion_main)
+                # the companion's own producers: most of what it runs hands work on to the first reactor
+                for _ in range(sim.draw_int(1, 2, "companion_producers")):
+                    prods.append(sched.spawn("prod%d" % len(prods), producer, len(prods), sim.draw_int(1, 6, "companion_ncalls"), 0, 1))
             for g in range(ncrash):
                 if plan[g] in ("thread", "io"):
                     prods.append(sched.spawn("crasher%d" % g, crasher, g, plan[g]))
@@ -348,7 +437,7 @@ def run(sim):
 
             def lost(e):
                 pending = len(issued) - len(ran)
-                sim.fail("lost-wakeup-deadlock" if pending else "deadlock", kind,
+                sim.fail("lost-wakeup-deadlock" if pending else "deadlock", "+".join(pending_on()) if pending else kind,
                          "no runnable thread; reactor parked in its poller with %d issued call(s) not run: %s" % (pending, e))
 
             with sim.guard("thread-raised", kind):
@@ -356,7 +445,8 @@ def run(sim):
                     sched.run(max_steps=400000, until=lambda: all(t.state == "done" for t in prods))
                     st["producers_done"] = True
                     # bounded liveness: once producers are done every issued call runs within a step budget
-                    sched.run(max_steps=50000, until=lambda: len(ran) >= len(issued) and len(issued) > 0)
+                    sched.run(max_steps=50000, until=lambda: len(ran) >= len(issued) and len(issued) > 0
+                              and (not companion or (st["b_started"] > 0 and st["hand_overs_due"] == 0)))
                 except T.Deadlock as e:
                     lost(e)
             sim.check("all-calls-ran-within-budget", len(ran) >= len(issued), kind,
@@ -375,20 +465,35 @@ def run(sim):
                     else:
                         sim.fail("stop-not-delivered", kind, "reactor.stop issued with callFromThread never ran: %s" % e)
             sim.check("reactor-stopped", rt.state == "done", kind, "reactor main loop did not finish after callFromThread(stop)")
+            if companion and sim.violation is None:
+                # the companion outlives the first reactor and is stopped the same way
+                sched.spawn("stopper-companion", lambda: rb.callFromThread(rb.stop))
+                with sim.guard("thread-raised", kind_b):
+                    try:
+                        sched.run(max_steps=50000, until=lambda: rtb.state == "done")
+                    except T.Deadlock as e:
+                        sim.fail("stop-not-delivered", kind_b, "companion reactor: stop issued with callFromThread never ran: %s" % e)
+                sim.check("reactor-stopped", rtb.state == "done", kind_b, "companion reactor's main loop did not finish after callFromThread(stop)")
         finally:
             sched.shutdown()
+            if rb is not None:
+                R.teardown(rb)
             if r is not None:
                 R.teardown(r)
+            threadable.ioThread = io_thread
     # history checks
     sim.check("each-call-exactly-once", sorted(ran) == sorted(issued) and len(set(ran)) == len(ran), kind,
               lambda: "issued %d calls, ran %d; duplicates=%r missing=%r" % (len(issued), len(ran), sorted(x for x in set(ran) if ran.count(x) > 1)[:3],
                                                                            sorted(set(issued) - set(ran))[:3]))
-    sim.check("ran-on-reactor-thread", all(t is st["reactor_thread"] for t in ran_thread), kind, "a call ran outside the reactor thread")
-    per = {}
-    for p, k in ran:
-        per.setdefault(p, []).append(k)
-    bad = sorted(str(p) for p, ks in per.items() if ks != sorted(ks))
-    sim.check("per-thread-order", not bad, kind, lambda: "calls of producer(s) %s ran out of issue order: %r" % (bad, {b: per.get(b) for b in bad[:2]}))
+    sim.check("ran-on-reactor-thread", all(th is st["reactor_thread"][t] for t, th in ran_thread), kind, "a call ran outside its reactor's thread")
+    per, want = {}, {}
+    for t, p, k in ran:
+        per.setdefault((t, p), []).append(k)
+    for t, p, k in issued:
+        want.setdefault((t, p), []).append(k)      # the order in which that thread issued them
+    bad = sorted(tp for tp, ks in per.items() if ks != want.get(tp))
+    sim.check("per-thread-order", not bad, "+".join(sorted(set(kinds[t] for t, p in bad))) if bad else kind,
+              lambda: "calls of producer(s) %s ran out of issue order: %r" % ([p for t, p in bad], {b[1]: per.get(b) for b in bad[:2]}))
     sim.sim_time += now[0]
     sim.state((kind, nprod, preempt, min(st["blocked_while_producing"], 3)))
     sim.nontrivial = (nprod >= 2 and st["blocked_while_producing"] > 0) or sim.probes.get("line_preemption", 0) > 0
@@ -404,5 +509,9 @@ MUTANTS = [
     "seeded C13-r4a (asyncio: positional-only calls bypass the timed-call route the keyword calls keep) -> CAUGHT per-thread-order:asyncio",
     "base.wakeUp: no wake-up byte once stop() has been called (seeded C13-r5a) -> CAUGHT lost-wakeup-deadlock / prompt-no-sleep-while-call-pending on select/poll/epoll (asynchronous-shutdown family)",
     "selectreactor._preenDescriptors: the reactor's internal readers are not probed and so fall out of _reads (seeded C13-r5b) -> CAUGHT lost-wakeup-deadlock / prompt-no-sleep-while-call-pending:select (dying-descriptor family)",
+    "base.callFromThread: wakeUp() only `if not threadable.isInIOThread()` (+ timeout() 0 while the queue is non-empty; seeded C13-r6a) -> CAUGHT lost-wakeup-deadlock / "
+    "prompt-no-sleep-while-call-pending on select/poll/epoll (companion-reactor family: the registered I/O thread is the OTHER reactor's)",
+    "FINDING put aside as an OBSERVATION outside the statement (unchanged tree, not repaired; only with knob COARSE_CLOCK_P > 0): on a clock whose consecutive readings tie, AsyncioSelectorReactor runs the calls of one thread out of order -> per-thread-order:asyncio "
+    "(callFromThread = callLater(0); DelayedCall ordering has no tie-break); select/poll/epoll hold on the same clocks.  Knob deliberately left at 0.0",
     "seeded C13-r4b (asyncio: crash() cancels the loop timer but keeps _scheduledAt; after crash from a hook / I/O callback with a due timer armed, the next run never runs thread calls) -> CAUGHT lost-wakeup-deadlock:asyncio",
 ]
